@@ -145,6 +145,7 @@ def check(ctx):
              "its specific code and before anything is hashed")
     C11.r5(ctx, retsets, GS, "C12.R5", cells(pdb))
     C11.no_static_state(ctx, "C12.R5")
+    C11.no_swapped_arguments(ctx, "C12.R5")
     r6(ctx, retsets)
     ctx.not_decided("that ECDSA_sign produces a signature an independent verifier accepts (OpenSSL); only the wiring is decided")
     ctx.not_decided("hop-by-hop composition (a path built from generated signatures validates) beyond C11.R3/R4 = C12.R3/R4 agreement")
